@@ -647,16 +647,22 @@ Definition tok (ty : ttype) (i : N) : token := mk_token i (i + 1) ty.
 Fixpoint toks (ty : ttype) (i : N) (k : nat) : list token :=
   match k with O => [] | S k' => tok ty i :: toks ty (i + 1) k' end.
 Definition lefts (k : nat) : list token := toks TLeft 0 k.
-Definition hashes (k : nat) : list token :=
-  (fix go (i : N) (k : nat) := match k with O => [] | S k' => mk_token i (i + 2) THashParen :: go (i + 2) k' end) 0 k.
+Fixpoint hash_toks (i : N) (k : nat) : list token :=
+  match k with O => [] | S k' => mk_token i (i + 2) THashParen :: hash_toks (i + 2) k' end.
+Definition hashes (k : nat) : list token := hash_toks 0 k.
 Definition quotes (k : nat) : list token := toks TQuote 0 k.
 (* the texts: "((( )))", "#(#(#( )))", "'''a", "(a a ... a)" *)
 Definition nest_car_text (k : nat) : text := repeat 40 k ++ repeat 41 k.
 Definition nest_vec_text (k : nat) : text := flat_map (fun _ => [35; 40]) (repeat tt k) ++ repeat 41 k.
 Definition quote_chain_text (k : nat) : text := repeat 39 k ++ [97].
 Definition chain_cdr_text (k : nat) : text := [40] ++ flat_map (fun _ => [97; 32]) (repeat tt k) ++ [41].
-Definition syms (k : nat) : list token :=
-  (fix go (i : N) (k : nat) := match k with O => [] | S k' => mk_token i (i + 1) TSymbol :: go (i + 2) k' end) 1 k.
+Fixpoint sym_toks (i : N) (k : nat) : list token :=
+  match k with O => [] | S k' => mk_token i (i + 1) TSymbol :: sym_toks (i + 2) k' end.
+Definition syms (k : nat) : list token := sym_toks 1 k.
+Definition rights (i : N) (k : nat) : list token := toks TRight i k.
+Definition nest_car_tokens (k : nat) : list token := lefts k ++ rights (N.of_nat k) k.
+Definition nest_vec_tokens (k : nat) : list token := hashes k ++ rights (2 * N.of_nat k) k.
+Definition quote_chain_tokens (k : nat) : list token := quotes k ++ [mk_token (N.of_nat k) (N.of_nat k + 1) TSymbol].
 Definition chain_cdr_tokens (k : nat) : list token :=
   mk_token 0 1 TLeft :: syms k ++ [mk_token (1 + 2 * N.of_nat k) (2 + 2 * N.of_nat k) TRight].
 
